@@ -62,3 +62,29 @@ Proof.
   split; [vm_compute; reflexivity|]. split; [vm_compute; reflexivity|].
   eexists. eexists. repeat split; vm_compute; reflexivity.
 Qed.
+
+(* C13, known finding: enum Status {} compiles to STATUS_UNSPECIFIED = 0; after appending the option
+   OLD_UNSPECIFIED - now the FIRST option, and a first option ending in UNSPECIFIED is taken as
+   the zero value - value 0 is called STATUS_OLD_UNSPECIFIED: a previously generated enum value
+   changed its name *)
+Definition w_empty_enum : bundle :=
+  [BJ (mkJfile foo_v1 (b "a") [] [EEnum (mkEnum (b "Status") [] [])])].
+Definition w_empty_enum_edit : list edit := [EAppendOption 0 0 (b "OLD_UNSPECIFIED")].
+
+Definition zero_value (D : list dfile) : option (str * N) :=
+  match D with
+  | f :: _ => match fl_enums f with e :: _ => hd_error (en_vals e) | [] => None end
+  | [] => None
+  end.
+
+Lemma append_to_empty_enum_renames_zero :
+  valid w_empty_enum = true /\ valid (apply_edits w_empty_enum w_empty_enum_edit) = true /\
+  exists D D', compile w_empty_enum (b "foo.v1") = Ok D /\
+               compile (apply_edits w_empty_enum w_empty_enum_edit) (b "foo.v1") = Ok D' /\
+               zero_value D = Some (b "STATUS_UNSPECIFIED", 0) /\
+               zero_value D' = Some (b "STATUS_OLD_UNSPECIFIED", 0) /\
+               files_ext_b D D' = false.
+Proof.
+  split; [vm_compute; reflexivity|]. split; [vm_compute; reflexivity|].
+  eexists. eexists. repeat split; vm_compute; reflexivity.
+Qed.
